@@ -53,7 +53,7 @@ CHECKS["C04"] = dict(
    design="4/C04")
 CHECKS["C05"] = dict(
    technique="grammar-based generation of nesting combinations executed in worker processes on 2 MiB threads (debug and release builds); limit search per construct; delta-reduction of failures",
-   text="Every single nesting construct is swept over depths 1..200 (limit must exist, no holes, <= 79 accepted) and 1.5k (quick) / 40k (thorough) multiplicative combinations are parsed, printed, debug-printed, cloned, dropped and deserialized on a 2 MiB thread in a debug and a release build: the worker must survive and any accepted document must have decoded depth <= 256; documents whose header path and whose key/value expression are each below the limit must be accepted; wide documents (79..600 shallow siblings of 14 kinds, then a construct nested 40 or 70 deep) must be accepted.",
+   text="Every single nesting construct is swept over depths 1..200 (limit must exist, no holes, <= 79 accepted) and 1.5k (quick) / 40k (thorough) multiplicative combinations are parsed, printed, debug-printed, cloned, dropped and deserialized on a 2 MiB thread in a debug and a release build: the worker must survive and any accepted document must have decoded depth <= 256; documents whose header path and whose key/value expression are each below the limit must be accepted; wide documents (79..600 shallow siblings of 14 kinds, then a construct nested 40 or 70 deep) must be accepted; nested arrays written in four multi-line layouts (depths 1..200) must have the outcome of the one-line layout. A worker that does not finish a batch in 240 s ends the run as inconclusive (exit 2) with the input named.",
    note="stack behaviour is that of this toolchain/platform (x86-64 Linux); the depth bound 256 is the harness' constant, above anything additive composition of per-construct limits of 80 can reach",
    design="4/C05")
 CHECKS["C11"] = dict(
